@@ -528,7 +528,7 @@ func init() {
 		probe := func(when string) string {
 			n := vnet.New()
 			a, b := n.Pair("probe", false)
-			go dispatchConnection(b, sta)
+			serveConn("probe", b, sta)
 			req := []byte("GET /" + when + " HTTP/1.1\r\nHost: example.com\r\n\r\n")
 			a.Write(req)
 			select {
@@ -619,7 +619,7 @@ func init() {
 						if err != nil {
 							vrt.Fail("harness", "accept: %v", err)
 						}
-						vrt.Go(fmt.Sprintf("dispatch%d", i), func() { dispatchConnection(sc, r.sta) })
+						serveConn(fmt.Sprintf("dispatch%d", i), sc, r.sta)
 						conn.Write([]byte("hello, not a handshake\n"))
 						quiesce()
 						wp := cfgPort
